@@ -211,6 +211,8 @@ class Ctx:
             key = jdigest(v["case"])
             if key in seen:
                 continue
+            if len(seen) >= 12:
+                break          # one root cause usually shows in many cells; 12 replays are enough to act on
             seen.add(key)
             os.makedirs(os.path.join(OUT, "replays"), exist_ok=True)
             rel = os.path.join("replays", "%s-%s.json" % (self.pid, key))
